@@ -306,6 +306,9 @@ func c17IsIdent(e ast.Expr, name string) bool {
 	return ok && id.Name == name
 }
 
+// the package-level constants Model/ToolsGenLib.v defines
+var c17KnownConsts = map[string]bool{"schema_Assistant": true, "components_ComponentOfTool": true}
+
 var c17Packages = map[string]bool{"schema": true, "tool": true, "components": true, "callbacks": true, "fmt": true, "errors": true, "context": true, "safe": true, "debug": true, "sync": true}
 
 func c17Binds(pre []string, body string) string { return strings.Join(pre, "") + body }
@@ -337,8 +340,11 @@ func (t *c17T) expr(e ast.Expr) ([]string, string, error) {
 		if _, ok := t.lookup(x.Name); ok {
 			return nil, x.Name, nil
 		}
-		if _, ok := t.funcs[x.Name]; ok { // a function value
-			return nil, x.Name, nil
+		if _, ok := t.funcs[x.Name]; ok { // a function value: one of the translated functions
+			if _, translated := c17Sigs[x.Name]; translated {
+				return nil, x.Name, nil
+			}
+			return nil, "", t.errf(x, "a function of the file that is not translated, used as a value")
 		}
 		return nil, "", t.errf(x, "unknown identifier")
 	case *ast.BasicLit:
@@ -355,6 +361,9 @@ func (t *c17T) expr(e ast.Expr) ([]string, string, error) {
 	case *ast.SelectorExpr:
 		if id, ok := x.X.(*ast.Ident); ok && c17Packages[id.Name] {
 			if _, local := t.lookup(id.Name); !local {
+				if !c17KnownConsts[id.Name+"_"+x.Sel.Name] {
+					return nil, "", t.errf(x, "a package-level name the vocabulary does not define")
+				}
 				return nil, id.Name + "_" + x.Sel.Name, nil // a package-level constant
 			}
 		}
@@ -611,7 +620,12 @@ func (t *c17T) call(x *ast.CallExpr) ([]string, string, error) {
 			}
 			return app(fmt.Sprintf("call_func%d %s", len(as), f.Name), pre, as)
 		}
-		if _, ok := t.funcs[f.Name]; ok || f.Name == "newRunnablePacker" || f.Name == "setToolCallInfo" || f.Name == "parseExecutorInfoFromComponent" {
+		// (only the functions of the file that the generated file defines - the translated ones - and the ones it takes
+		// as parameters: a call of any other function of the file, e.g. a helper extracted from a translated function,
+		// is a shape this translator does not know)
+		_, declared := t.funcs[f.Name]
+		_, translated := c17Sigs[f.Name]
+		if (declared && (translated || f.Name == "parallelRunToolCall")) || f.Name == "newRunnablePacker" || f.Name == "setToolCallInfo" || f.Name == "parseExecutorInfoFromComponent" {
 			pre, as, err := t.args(x)
 			if err != nil {
 				return nil, "", err
@@ -1887,8 +1901,24 @@ func c17ParallelShape(fd *ast.FuncDecl, funcs map[string]*ast.FuncDecl, file *as
 	}
 	c17OptsDropped = nil
 	l := fd.Body.List
+	// (the goroutines are registered one by one, wg.Add(1) before each go statement, or all at once before the
+	// spawn loop, wg.Add(len(tasks) - K) with K the index the loop starts from: either way the counter is never
+	// below the number of spawned goroutines that have not called Done)
+	addUpfront, addCall := "", ""
+	if len(l) == 6 {
+		if es, ok := l[2].(*ast.ExprStmt); ok {
+			if c, ok := es.X.(*ast.CallExpr); ok && len(c.Args) == 1 && !c.Ellipsis.IsValid() {
+				if b, ok := c.Args[0].(*ast.BinaryExpr); ok && b.Op == token.SUB {
+					if k, ok := c17IntLit(b.Y); ok && strings.Join(strings.Fields(types.ExprString(b.X)), "") == "len("+tasks+")" {
+						addUpfront, addCall = k, strings.Join(strings.Fields(types.ExprString(c.Fun)), "")
+						l = append(append([]ast.Stmt{}, l[:2]...), l[3:]...)
+					}
+				}
+			}
+		}
+	}
 	if len(l) != 5 {
-		return bad("%d statements, expected 5", len(l))
+		return bad("%d statements, expected 5", len(fd.Body.List))
 	}
 	// if len(tasks) == K { run(ctx, &tasks[J], opts...); return }
 	is, ok := l[0].(*ast.IfStmt)
@@ -1946,14 +1976,25 @@ func c17ParallelShape(fd *ast.FuncDecl, funcs map[string]*ast.FuncDecl, file *as
 	if !ok || post.Tok != token.INC || !c17IsIdent(post.X, iv.Name) {
 		return bad("spawn loop (post)")
 	}
-	if len(fs.Body.List) != 2 {
-		return bad("spawn loop body")
+	var gs *ast.GoStmt
+	if addUpfront != "" {
+		if addCall != wg+".Add" || addUpfront != from {
+			return bad("wg.Add before the spawn loop does not register the goroutines the loop spawns")
+		}
+		if len(fs.Body.List) != 1 {
+			return bad("spawn loop body")
+		}
+		gs, ok = fs.Body.List[0].(*ast.GoStmt)
+	} else {
+		if len(fs.Body.List) != 2 {
+			return bad("spawn loop body")
+		}
+		add, ok := fs.Body.List[0].(*ast.ExprStmt)
+		if !ok || strings.Join(strings.Fields(types.ExprString(add.X)), "") != wg+".Add(1)" {
+			return bad("spawn loop: wg.Add(1) expected before the go statement")
+		}
+		gs, ok = fs.Body.List[1].(*ast.GoStmt)
 	}
-	add, ok := fs.Body.List[0].(*ast.ExprStmt)
-	if !ok || strings.Join(strings.Fields(types.ExprString(add.X)), "") != wg+".Add(1)" {
-		return bad("spawn loop: wg.Add(1) expected before the go statement")
-	}
-	gs, ok := fs.Body.List[1].(*ast.GoStmt)
 	if !ok {
 		return bad("spawn loop: go statement")
 	}
